@@ -5,6 +5,9 @@ import (
 	"fmt"
 
 	"github.com/Flowpack/prunner/definition"
+	"os"
+	"path/filepath"
+
 	"github.com/Flowpack/prunner/store"
 	"math/rand"
 	"reflect"
@@ -895,5 +898,131 @@ func RunShutdownVsRemovingSaves(seed int64) *HistResult {
 	res.sit("C13", fmt.Sprintf("forced shutdown while saves remove jobs (saves that removed something: %d+)", min(removed, 3)))
 	res.Evaluations["C13"] += removed
 	res.Events = sys.Log.Len()
+	return res
+}
+
+// RunFailedSaveThenShutdownCase (C11 on the REAL JsonDataStore): a save of the live runner fails because of the operating
+// system (the data directory is away for a moment: an unmounted volume, a deployment that swaps directories), the
+// directory comes back, the job goes on and the runner is shut down. Whatever a failed save left behind inside the store
+// object, the store a fresh process loads afterwards is the final reported state.
+func RunFailedSaveThenShutdownCase(seed int64, workDir string) *HistResult {
+	res := &HistResult{Seed: seed, Situations: map[string]map[string]struct{}{}, Evaluations: map[string]int{}}
+	find := func(sig, format string, args ...any) {
+		res.Findings = append(res.Findings, Finding{Props: []string{"C11", "C10"}, Sig: sig, Detail: fmt.Sprintf(format, args...), Step: -1})
+	}
+	dir, err := os.MkdirTemp(workDir, "failsave-")
+	if err != nil {
+		res.Inconclusive = err.Error()
+		return res
+	}
+	defer os.RemoveAll(dir)
+	dataDir := filepath.Join(dir, "data")
+	js, err := store.NewJSONDataStore(dataDir)
+	if err != nil {
+		res.Inconclusive = err.Error()
+		return res
+	}
+	def := definition.PipelineDef{Concurrency: 1, SourcePath: "gen", Tasks: map[string]definition.TaskDef{
+		"a": {Script: []string{"true"}}, "b": {Script: []string{"true"}, DependsOn: []string{"a"}}}}
+	sys, err := core.NewSys(&definition.PipelinesDef{Pipelines: map[string]definition.PipelineDef{"p": def}}, js, core.NewMemOutputStore())
+	if err != nil {
+		res.Inconclusive = err.Error()
+		return res
+	}
+	defer sys.Close()
+	defer DrainAll(sys)
+	q := func() bool {
+		if _, err := sys.Quiesce(core.QuiesceOpts{Watchdog: 20 * time.Second}); err != nil {
+			res.Inconclusive = err.Error()
+			return false
+		}
+		return true
+	}
+	j1, cls := sys.Schedule(0, "p", nil, "u")
+	if cls != "ok" || !q() {
+		return res
+	}
+	okSavesBefore := int(seed % 3) // successful saves before the failing one
+	for i := 0; i < okSavesBefore; i++ {
+		sys.Save(1)
+	}
+	away := dataDir + ".away"
+	if err := os.Rename(dataDir, away); err != nil {
+		res.Inconclusive = err.Error()
+		return res
+	}
+	sys.Release(j1, "a", core.Outcome{Kind: core.OutOK})
+	if !q() {
+		_ = os.Rename(away, dataDir)
+		return res
+	}
+	failing := 1 + int(seed/3)%2
+	for i := 0; i < failing; i++ {
+		sys.Save(1) // fails: the directory is gone
+	}
+	if err := os.Rename(away, dataDir); err != nil {
+		res.Inconclusive = err.Error()
+		return res
+	}
+	j2, _ := sys.Schedule(0, "p", nil, "u") // waits behind j1
+	mode := int(seed/6) % 2
+	sd := make(chan struct{})
+	if mode == 0 {
+		// the job ends, then a graceful shutdown
+		sys.Release(j1, "b", core.Outcome{Kind: core.OutOK})
+		if !q() {
+			return res
+		}
+		DrainAll(sys)
+		go func() { defer close(sd); _ = sys.Shutdown(3, context.Background(), "graceful") }()
+	} else {
+		// forced shutdown while task b runs
+		ctx, cancel := context.WithCancel(context.Background())
+		cancel()
+		go func() { defer close(sd); _ = sys.Shutdown(3, ctx, "forced") }()
+	}
+	select {
+	case <-sd:
+	case <-time.After(30 * time.Second):
+		res.Inconclusive = "watchdog: Shutdown did not return within 30 s"
+		return res
+	}
+	final := sys.Snapshot(-1)
+	res.sit("C11", fmt.Sprintf("%d good saves, %d saves failed while the data directory was away, then %s shutdown", okSavesBefore, failing, []string{"graceful", "forced"}[mode]))
+	res.Evaluations["C11"]++
+	fresh, _ := store.NewJSONDataStore(dataDir)
+	data, err := fresh.Load()
+	if err != nil {
+		find("C11:store-not-loadable-after-shutdown", "after a save that failed (data directory away) and a shutdown the store does not load: %v", err)
+		return res
+	}
+	byID := map[string]store.PersistedJob{}
+	for _, pj := range data.Jobs {
+		byID[pj.ID.String()] = pj
+	}
+	if len(byID) != len(final.Jobs) {
+		find("C11:store-differs-from-final-state", "the store a fresh process loads holds %d jobs, the runner reported %d when Shutdown returned", len(byID), len(final.Jobs))
+	}
+	for i := range final.Jobs {
+		j := &final.Jobs[i]
+		pj, ok := byID[j.ID]
+		name := map[string]string{j1: "the job that ran", j2: "the job that waited"}[j.ID]
+		if !ok {
+			find("C11:store-differs-from-final-state", "%s is reported but missing in the store", name)
+			continue
+		}
+		if !j.Terminal() {
+			find("C11:job-not-terminal-when-shutdown-returned", "%s is reported completed=%v canceled=%v when Shutdown returned", name, j.Completed, j.Canceled)
+		}
+		if pj.Completed != j.Completed || pj.Canceled != j.Canceled || (pj.End != nil) != (j.End != nil) || (pj.Start != nil) != (j.Start != nil) {
+			find("C11:store-differs-from-final-state", "%s: a fresh process loads completed=%v canceled=%v started=%v ended=%v, the runner reported completed=%v canceled=%v started=%v ended=%v when Shutdown returned (an earlier save had failed because the data directory was away)", name, pj.Completed, pj.Canceled, pj.Start != nil, pj.End != nil, j.Completed, j.Canceled, j.Start != nil, j.End != nil)
+			continue
+		}
+		for ti := range j.Tasks {
+			if ti < len(pj.Tasks) && pj.Tasks[ti].Status != j.Tasks[ti].Status {
+				find("C11:store-differs-from-final-state", "%s task %s: a fresh process loads status %q, the runner reported %q", name, j.Tasks[ti].Name, pj.Tasks[ti].Status, j.Tasks[ti].Status)
+			}
+		}
+	}
 	return res
 }
